@@ -18,8 +18,10 @@ def build():
      "hooks": {"guard": "verif", "enable": "go build -tags verif (govc loads /repo with -tags=verif; the guarded files are comment-only contract files named contracts_verif.go)",
                "baseline_off_cmd": "cd /repo && GOFLAGS=-mod=mod GOPROXY=off GOSUMDB=off go test -json -vet=off -count=1 -timeout 25m ./...",
                "source_commits": src, "add_only": True},
-     "engines": [{"name": "govc", "path": "/verif/engine", "serves_properties": sorted(checks.keys()),
-                  "kind_free_text": "verification-condition generator for Go written for this task: go/packages + go/ssa front end on /repo's working tree, contracts in //@ comment files, weakest preconditions as SMT-LIB (bit-vectors at exact width, array heap), z3 5.1 / z3 4.8.12 / cvc5 raced per obligation, counterexamples replayed on the real code with go test -overlay"}],
+     "engines": [{"name": "govc", "path": "/verif/engine", "serves_properties": sorted(k for k in checks.keys() if k != "C18"),
+                  "kind_free_text": "verification-condition generator for Go written for this task: go/packages + go/ssa front end on /repo's working tree, contracts in //@ comment files, weakest preconditions as SMT-LIB (bit-vectors at exact width, array heap), z3 5.1 / z3 4.8.12 / cvc5 raced per obligation, counterexamples replayed on the real code with go test -overlay"},
+                 {"name": "c18harness", "path": "/verif/bounded/c18", "serves_properties": ["C18"],
+                  "kind_free_text": "bounded exploration harness (Go program built against /repo on every run) standing in for reflect.go, which is outside govc's subset; labelled bounded, proves nothing"}],
      "checks": [], "not_applicable": na,
      "notes": "Contracts live in /repo/**/contracts_verif.go (//go:build verif) and /verif/contracts/*.spec. Known findings: /verif/KNOWN_FINDINGS.txt. Obligation ledgers: /verif/ledger/. See DESIGN.md.",
     }
@@ -27,7 +29,7 @@ def build():
         c = checks[pid]
         m["checks"].append({
           "property_id": pid, "quick_cmd": f"./check {pid} quick", "thorough_cmd": f"./check {pid} thorough",
-          "evidence_file": f"/verif/evidence/{pid}.json", "replay_cmd_template": "cat {path}", "engine": "govc",
+          "evidence_file": f"/verif/evidence/{pid}.json", "replay_cmd_template": "cat {path}", "engine": ("c18harness" if pid == "C18" else "govc"),
           "level_claimed": {"category": c["level"], "text": c["text"], "design_ref": c["ref"]},
           "level_note": c["note"], "technique": c["technique"]})
     return m
